@@ -1,4 +1,6 @@
 import GB.C05.Witness
+import GB.C05.PipelineProofs
+import GB.C05.Deciders
 /-
   C05 — reflection resolution reproduces the target's contract for any conformant server.
   Property theorems only; helper lemmas live in Proofs.lean, vocabulary in Spec.lean.
@@ -263,6 +265,45 @@ theorem C05_version_fallback (dedup : List DFile → List DFile) (cfg : Cfg) (en
     | unchanged => simp [swapFront, hp]
     | error e' => exact absurd rfl (hout e')
 
+/-- Full characterisation of `Resolver.resolve` over `methodPriority = [a, b]` for ANY pair of
+    per-version results.  With `(ha, la, oa)` what `resolveWithMethod` yields for `a` and `(hb, lb, ob)`
+    for `b` (both started from the same remembered hashes — a failed attempt changes nothing):
+    * `a` delivers (update / unchanged): that outcome, `a`'s hashes, order kept, `b` is not tried;
+    * `a` fails with a code other than Unimplemented: that error is reported, state unchanged, `b` is not tried;
+    * `a` is Unimplemented and `b` delivers: `b`'s outcome and hashes, order becomes `[b, a]`;
+    * `a` is Unimplemented and `b` fails with another code: `b`'s error, state unchanged;
+    * both Unimplemented: the joined error, whose code is Unimplemented, state unchanged.
+    The log lists exactly the methods tried, in order.  (`resolveSpec`, Spec.lean, is this table.) -/
+theorem C05_resolve_priority_spec (dedup : List DFile → List DFile) (cfg : Cfg) (env : Version → Endpoint)
+    (st : RState) (a b : Version) (hp : st.priority = [a, b]) :
+    resolve dedup cfg env st =
+      resolveSpec st a b (resolveWithMethod dedup cfg (env a) st.last) (resolveWithMethod dedup cfg (env b) st.last) := by
+  unfold resolve resolveSpec
+  rw [hp]
+  unfold resolveFrom
+  rcases hra : resolveWithMethod dedup cfg (env a) st.last with ⟨ha, la, oa⟩
+  rcases hrb : resolveWithMethod dedup cfg (env b) st.last with ⟨hb, lb, ob⟩
+  cases oa with
+  | update t => simp [swapFront, hp]
+  | unchanged => simp [swapFront, hp]
+  | error e =>
+    simp only
+    by_cases hc : e.code = codeUnimplemented
+    · simp only [hc, ↓reduceIte]
+      unfold resolveFrom
+      rw [hrb]
+      cases ob with
+      | update t => simp [swapFront, hp]
+      | unchanged => simp [swapFront, hp]
+      | error e2 =>
+        simp only
+        by_cases hc2 : e2.code = codeUnimplemented
+        · simp only [hc2, ↓reduceIte]
+          unfold resolveFrom
+          simp
+        · simp [hc2]
+    · simp [hc]
+
 /-- When every version answers Unimplemented the poll reports an error (never a description). -/
 theorem C05_all_unimplemented (dedup : List DFile → List DFile) (cfg : Cfg) (env : Version → Endpoint)
     (st : RState) (hp : st.priority = [.v1, .v1alpha] ∨ st.priority = [.v1alpha, .v1])
@@ -339,4 +380,155 @@ theorem C05_unfocused_needs_more_rounds :
     (∀ n, Reach drip.files (rootNames cfg0 drip) n → Within drip.files (rootNames cfg0 drip) cfg0.limit n) ∧
     (runStream (dedupFiles []) cfg0 dripPol idSched).2.toOption.isNone = true :=
   ⟨drip_wf, drip_conformant, wit_fair, drip_depth, by decide⟩
+
+/-! ## reflection/client.go: the pipelined batch refines the sequential conversation
+
+`Pipe.step` (Pipeline.lean) is `execFileDescriptorRequests` — requester goroutine, receiver goroutine,
+semaphore, the two buffered error channels, the cancelling context, `wg.Wait` — followed by
+`client.close()`; nondeterminism is the choice of the next label, so "reachable" = "after any
+interleaving".  The target answers the pipelined requests in FIFO order, each answer computed from the
+whole conversation so far (`Pipe.idealAnswers_spec`). -/
+
+/-- For EVERY interleaving: once the function has decided its result, that result is the sequential
+    FIFO conversation's (`execBatch`, what the resolver model uses): returned files are exactly the
+    sequential files — even if timeouts or stream errors occurred somewhere — and, unless a stream-level
+    fault (timeout, status, EOF) happened before the function's own `cancel()`, a returned error is exactly
+    the sequential error. -/
+theorem C05_pipeline_refines_fifo (closeFixed : Bool) (pol : Policy) (h0 : History) (reqs : List Request)
+    (s : Pipe.PState)
+    (hr : LTS.Reachable (Pipe.step closeFixed (Pipe.idealAnswers pol h0 reqs)) (Pipe.init reqs.length) s) :
+    (∀ l, s.result = some (.ok l) → (execBatch pol h0 reqs).2 = .ok l) ∧
+    (∀ e, s.result = some (.error e) → s.streamFault = true ∨ (execBatch pol h0 reqs).2 = .error e) ∧
+    (∀ r, s.streamFault = false → s.result = some r → r = (execBatch pol h0 reqs).2) := by
+  have hlen := Pipe.idealAnswers_length pol reqs h0
+  rw [← hlen] at hr
+  have hi := Pipe.pinv_reachable closeFixed _ s hr
+  rw [Pipe.execBatch_eq_collect]
+  refine ⟨fun l h => (hi.result_ok l h).symm ▸ rfl, fun e h => ?_, fun r hf h => ?_⟩
+  · rcases hi.result_err e h with a | a
+    · exact Or.inl a
+    · exact Or.inr a
+  · cases r with
+    | ok l => exact (hi.result_ok l h).symm
+    | error e =>
+      rcases hi.result_err e h with a | a
+      · rw [hf] at a; exact absurd a (by simp)
+      · exact a.symm
+
+/-- Semaphore invariant: in every interleaving the receiver is inside `Recv` for response `i` only
+    after request `i` has been written to the stream, and the tokens add up. -/
+theorem C05_pipeline_semaphore (closeFixed : Bool) (A : List Answer) (s : Pipe.PState)
+    (hr : LTS.Reachable (Pipe.step closeFixed A) (Pipe.init A.length) s) :
+    (∀ i, s.vpc = .recv i → i < s.wire ∧ i < A.length) ∧ s.sem + s.taken = s.sig ∧ s.sig ≤ s.wire ∧
+    s.served ≤ s.wire ∧ s.wire ≤ A.length := by
+  have hi := Pipe.pinv_reachable closeFixed A s hr
+  refine ⟨fun i hv => ?_, hi.tokens, hi.sig_le, hi.served_le, hi.wire_le⟩
+  have := hi.v_recv i hv
+  have h1 := hi.tokens
+  have h2 := hi.sig_le
+  exact ⟨by omega, this.2.1⟩
+
+/-- No leak: whenever `execFileDescriptorRequests` has returned (and all through `close()`), both
+    goroutines have exited; while it waits in `wg.Wait` its context is cancelled, and a cancelled
+    context unblocks every blocking point of either goroutine (the select on the semaphore, a `Recv`,
+    a `Send`), so an error on either side stops the other. -/
+theorem C05_pipeline_no_leak (closeFixed : Bool) (A : List Answer) (s : Pipe.PState)
+    (hr : LTS.Reachable (Pipe.step closeFixed A) (Pipe.init A.length) s) :
+    (s.mpc ≠ .joining → (∀ k, s.mpc ≠ .reading k) → s.rpc = .done ∧ s.vpc = .done) ∧
+    (s.mpc = .joining → s.cancelled = true) ∧
+    (s.cancelled = true →
+      (∀ i, s.vpc = .wait i → i < A.length → (Pipe.step closeFixed A s .rcvCancelled).isSome = true) ∧
+      (∀ i, s.vpc = .recv i → (Pipe.step closeFixed A s (.rcvFault ⟨Pipe.codeCanceled⟩ true)).isSome = true) ∧
+      (∀ i, s.rpc = .send i → i < A.length →
+        (Pipe.step closeFixed A s (.reqSendFault ⟨Pipe.codeCanceled⟩)).isSome = true)) ∧
+    (s.mpc = .joining → s.rpc = .done → s.vpc = .done → (Pipe.step closeFixed A s .mainJoin).isSome = true) := by
+  have hi := Pipe.pinv_reachable closeFixed A s hr
+  refine ⟨hi.joined, hi.joining, fun hc => ⟨?_, ?_, ?_⟩, ?_⟩
+  · intro i hv hlt; simp [Pipe.step, hv, hlt, hc]
+  · intro i hv; simp [Pipe.step, hv]
+  · intro i hv hlt; simp [Pipe.step, hv, hlt]
+  · intro a b c; simp [Pipe.step, a, b, c]
+
+/-- client.close() after the fix: in no interleaving is a `Recv` issued on a stream that still has a
+    `Recv` in flight — neither the receiver's nor one left running in the background by a call whose
+    context ended (`AdaptedClientStream.withCtx`). -/
+theorem C05_close_no_concurrent_recv (A : List Answer) (s : Pipe.PState)
+    (hr : LTS.Reachable (Pipe.step true A) (Pipe.init A.length) s) : Pipe.reads s ≤ 1 :=
+  Pipe.reads_le_one A s (Pipe.pinv_reachable true A s hr)
+
+/-- … and before the fix it was: one request, its `Recv` times out (the read stays behind), the function
+    returns the error, close() reads again — two reads on one stream. -/
+theorem C05_close_unfixed_reads_twice :
+    (LTS.run (Pipe.step false [.files []]) (Pipe.init 1)
+      [.reqSend, .reqSignal, .rcvTake, .rcvFault ⟨4⟩ true, .mainReadRecv, .reqFinish, .mainJoin,
+       .closeSend, .closeRecvCall]).map Pipe.reads = some 2 := by
+  decide
+
+/-- The same schedule is impossible after the fix (the graceful `Recv` is skipped), and the fault-free
+    schedule still closes gracefully. -/
+theorem C05_close_fixed_witness :
+    (LTS.run (Pipe.step true [.files []]) (Pipe.init 1)
+      [.reqSend, .reqSignal, .rcvTake, .rcvFault ⟨4⟩ true, .mainReadRecv, .reqFinish, .mainJoin,
+       .closeSend, .closeRecvCall]).isNone = true ∧
+    (LTS.run (Pipe.step true [.files []]) (Pipe.init 1)
+      [.reqSend, .serve, .reqSignal, .reqFinish, .rcvTake, .rcvRecv, .rcvFinish, .mainReadRecv, .mainReadSend,
+       .mainJoin, .closeSend, .closeRecvCall, .closeRecvRet, .closeClose]).map (fun s => (s.result.map Except.toOption, s.mpc)) =
+      some (some (some []), .closed) := by
+  decide
+
+/-! ## the driver's deciders are the theorems' predicates
+
+The differential run demands success ("must") exactly when the executable checks below hold on the
+scripted target and on the logged conversation.  These theorems show that this is exactly the hypothesis
+set of `C05_complete_any` / `C05_complete_focused`. -/
+
+/-- `withinB` / `reachB` decide `Within` / `Reach`; `wfFilesB` decides `WFFiles`; `depthFits` decides the
+    depth hypothesis of `C05_complete_focused`; the per-event checkers decide the conformance / focus clauses. -/
+theorem C05_deciders_sound (cfg : Cfg) (srv : Server) :
+    (∀ roots k n, n ∈ withinB srv.files roots k ↔ Within srv.files roots k n) ∧
+    (∀ roots n, n ∈ reachB srv.files roots ↔ Reach srv.files roots n) ∧
+    (wfFilesB srv.files = true ↔ WFFiles srv.files) ∧
+    (∀ n, n ∈ specNames cfg srv.listed ↔ wanted cfg srv.listed n) ∧
+    (specRoots cfg srv.files srv.listed = rootNames cfg srv) ∧
+    (depthFits cfg srv.files srv.listed = true ↔
+      ∀ n, Reach srv.files (rootNames cfg srv) n → Within srv.files (rootNames cfg srv) cfg.limit n) ∧
+    (∀ e, conformantEvent srv.files srv.listed e = true ↔ ConformantEvent srv e) ∧
+    (∀ e, focusedEvent srv.files e = true ↔ FocusedEvent srv e) :=
+  ⟨fun roots k n => mem_withinB srv.files roots k n, fun roots n => mem_reachB srv.files roots n,
+   wfFilesB_iff srv.files, mem_specNames cfg srv.listed, specRoots_eq cfg srv, depthFits_iff cfg srv,
+   conformantEvent_iff srv, focusedEvent_iff srv⟩
+
+/-- A log all of whose events pass the conformance checker is the beginning of a conversation with a
+    `Conformant` service (and `Focused`, if they pass the focus checker too): there is a policy that
+    answers exactly as logged wherever the log has the request at hand, and conformantly everywhere else. -/
+theorem C05_conformant_log_extends (srv : Server) (evs : List Event)
+    (hconf : evs.all (conformantEvent srv.files srv.listed) = true) :
+    ∃ pol, Agrees pol evs ∧ Conformant srv pol ∧
+      (evs.all (focusedEvent srv.files) = true → Focused srv pol) := by
+  refine ⟨extendPol srv evs, extendPol_agrees srv evs, ?_, ?_⟩
+  · exact extendPol_conformant srv evs fun e he => (conformantEvent_iff srv e).1 (List.all_eq_true.1 hconf e he)
+  · intro hfoc
+    exact extendPol_focused srv evs fun e he => (focusedEvent_iff srv e).1 (List.all_eq_true.1 hfoc e he)
+
+/-- "Success is mandatory here": when the driver's checks hold — the target's files pass `wfFilesB`, every
+    wanted name is defined, every logged event passes `conformantEvent`, and either `#files ≤ limit` or
+    all events pass `focusedEvent` and `depthFits` — then the logged conversation belongs to a service for
+    which `C05_complete_*` applies: with it, under every fair schedule, the resolver model succeeds with the
+    target's complete contract.  So an implementation that errs on such a conversation violates the property. -/
+theorem C05_mandatory_success_justified (cfg : Cfg) (srv : Server) (evs : List Event)
+    (hno : cfg.onlyServices = false)
+    (hwf : wfFilesB srv.files = true)
+    (hdef : (specNames cfg srv.listed).all (fun n => (findService srv.files n).isSome) = true)
+    (hconf : evs.all (conformantEvent srv.files srv.listed) = true)
+    (hfit : srv.files.length ≤ cfg.limit ∨
+      (evs.all (focusedEvent srv.files) = true ∧ depthFits cfg srv.files srv.listed = true)) :
+    ∃ pol, Agrees pol evs ∧ Conformant srv pol ∧
+      ∀ sched, FairSched sched →
+        ∃ h ok, runStream (dedupFiles []) cfg pol sched = (h, .ok ok) ∧ Complete cfg srv ok := by
+  rcases C05_conformant_log_extends srv evs hconf with ⟨pol, hag, hc, hfoc⟩
+  have hWF := wf_of_deciders cfg srv hwf hdef
+  refine ⟨pol, hag, hc, fun sched hfair => ?_⟩
+  rcases hfit with hlen | ⟨hf, hd⟩
+  · exact C05_complete_any hWF hc hfair hno hlen
+  · exact C05_complete_focused hWF hc (hfoc hf) hfair hno ((depthFits_iff cfg srv).1 hd)
 
